@@ -64,7 +64,7 @@ impl Property for C03 {
         if tier == "thorough" { 1_500_000 } else { 40_000 }
     }
     fn rule(&self) -> String {
-        "thorough tier additionally enumerates, for every corpus script up to 1536 bytes, truncation at every byte offset and an invalid UTF-8 byte at every byte offset; sampled cases: case = (printing program from W1 | W2) x (delivery mode: chunked reads at PRNG boundaries incl. inside multi-byte characters, wrong size hint, EINTR bursts | read error at the n-th read | open error (7 injected errnos; or refused by the kernel itself: trailing slash, directory, symlink loop, missing file, path longer than PATH_MAX) | getcwd error | stored byte replaced by an invalid UTF-8 byte at a PRNG offset | inter-token space replaced by a character no token starts with (W2 only) | truncated delivery at a PRNG offset); oracle: invisible deliveries => reference transcript; read/open/cwd/encoding faults => empty stdout, no fd-1 write attempted, exit 103, exactly one stderr line starting with argv[1]; lexical corruption => same plus located form with line <= lines+1; truncation => exit in {0,103}, stderr empty iff exit 0, located line bound; on every run all script reads and the close precede the first stdout write; non-trivial = fault/delivery event fired; distinct = distinct (program, world, plan)".to_string()
+        "thorough tier additionally enumerates, for every corpus script up to 1536 bytes, truncation at every byte offset and an invalid UTF-8 byte at every byte offset; sampled cases: case = (printing program from W1 | W2) x (delivery mode: chunked reads at PRNG boundaries incl. inside multi-byte characters, wrong size hint, EINTR bursts | read error at the n-th read | open error (7 injected errnos; or refused by the kernel itself: trailing slash, directory, symlink loop, missing file, path longer than PATH_MAX) | getcwd error | stored byte replaced by an invalid UTF-8 byte at a PRNG offset | inter-token space replaced by a character no token starts with, or - outside all brackets - by a ',' that makes a syntax error (W2 only) | truncated delivery at a PRNG offset); oracle: invisible deliveries => reference transcript; read/open/cwd/encoding faults => empty stdout, no fd-1 write attempted, exit 103, exactly one stderr line starting with argv[1]; lexical corruption => same plus located form with line <= lines+1; truncation => exit in {0,103}, stderr empty iff exit 0, located line bound; on every run all script reads and the close precede the first stdout write; non-trivial = fault/delivery event fired; distinct = distinct (program, world, plan)".to_string()
     }
     fn assumptions(&self) -> Vec<String> {
         vec![
@@ -73,7 +73,7 @@ impl Property for C03 {
         ]
     }
     fn required_probes(&self, _tier: &str) -> Vec<String> {
-        vec!["mode:invisible".into(), "mode:read-error".into(), "mode:open-error".into(), "mode:cwd-error".into(), "mode:flip-utf8".into(), "mode:flip-illegal".into(), "mode:eof-early".into(), "read-split-codepoint".into()]
+        vec!["mode:invisible".into(), "mode:read-error".into(), "mode:open-error".into(), "mode:cwd-error".into(), "mode:flip-utf8".into(), "mode:flip-illegal".into(), "mode:flip-syntax".into(), "mode:eof-early".into(), "read-split-codepoint".into()]
     }
 
     fn gen_case(&self, ctx: &Ctx, worker: usize, rng: &mut Rng, index: u64) -> Case {
@@ -156,7 +156,9 @@ impl Property for C03 {
                 let cands: Vec<&crate::w2::Space> = w2p.spaces.iter().filter(|s| s.after_first_print).collect();
                 if let Some(sp) = if cands.is_empty() { None } else { Some(cands[rng.usize_below(cands.len())]) } {
                     let repl: &[&[u8]] = &[b"@", b"~", b"^", b"?", b"\x01", b"`", "é".as_bytes(), "✓".as_bytes(), b"\x0b"];
-                    plan.items.push(Item::Flip { off: sp.off, bytes: repl[rng.usize_below(repl.len())].to_vec() });
+                    // a stray `,` outside all brackets lexes fine and is a syntax error instead
+                    let bytes = if sp.stmt_level && rng.chance(1, 3) { b",".to_vec() } else { repl[rng.usize_below(repl.len())].to_vec() };
+                    plan.items.push(Item::Flip { off: sp.off, bytes });
                     if rng.chance(1, 2) {
                         plan.items.push(chunk);
                     }
@@ -199,7 +201,7 @@ impl Property for C03 {
 
         // which class of thing actually happened
         let rd_err = r.events.iter().any(|e| e.kind == 'R' && e.ret < 0 && e.errno != 4);
-        let real_refusal = case.world.spelling >= 7;
+        let real_refusal = (7..=11).contains(&case.world.spelling);
         let op_err = real_refusal || r.events.iter().any(|e| e.kind == 'O' && e.ret < 0 && e.errno != 4);
         if real_refusal {
             out.probes.push(format!("real-refusal:{}", case.world.spelling));
@@ -278,12 +280,14 @@ impl Property for C03 {
             return out;
         }
         if flip_illegal {
-            out.probes.push("mode:flip-illegal".into());
-            out.cells.push("mode:flip-illegal".into());
+            let syntax = flip.as_ref().map(|(_, b)| b.as_slice() == b",").unwrap_or(false);
+            let m = if syntax { "mode:flip-syntax" } else { "mode:flip-illegal" };
+            out.probes.push(m.into());
+            out.cells.push(m.into());
             out.nontrivial = true;
             let mut bad = vec![];
             if !r.stdout.is_empty() || fd1_attempt {
-                bad.push("statements before the lexical error were executed".to_string());
+                bad.push("statements before the lexical/syntax error were executed".to_string());
             }
             if r.status != Status::Exit(103) {
                 bad.push("exit status is not 103".to_string());
@@ -301,7 +305,7 @@ impl Property for C03 {
             }
             if !bad.is_empty() {
                 out.violation = Some(viol(
-                    "a lexical error anywhere prevents execution of every statement and is reported as one located diagnostic",
+                    "a lexical or syntax error anywhere prevents execution of every statement and is reported as one located diagnostic",
                     "unclean-lexical-rejection",
                     format!("{}; plan=[{}]", bad.join("; "), case.plan.encode_items()),
                     "stdout empty, exit 103, one stderr line '<argv1>:<L>:<C>: ...'".into(),
